@@ -162,6 +162,7 @@ func checkC14(c *Ctx) {
 	}
 
 	c.checkSymbolKeysByNumber("C14-SYM")
+	c.checkHashStorageNotShared("C14-SHARE")
 	// ---- C14-WM
 	allowed := map[string]string{
 		"SexpHash.HashSet": "set", "SexpHash.HashDelete": "delete", "SetHashKeyOrder": "reorder (decoders)",
@@ -792,4 +793,66 @@ func (c *Ctx) checkSymbolKeysByNumber(rule string) {
 	if n < 3 {
 		c.undecided(rule, "hashutils.go", "key comparisons", token.NoPos, fmt.Sprintf("only %d key comparisons found in set/delete/get", n))
 	}
+}
+
+// checkHashStorageNotShared: the order list and the buckets of a hash belong to
+// that hash. Both are grown with append and pairs are replaced in place; if a
+// second hash is given the same slices (a clone that copies the slice headers)
+// the two then write into one backing array: an append by one overwrites the
+// entry the other appended, and the order list no longer lists the map's keys.
+// (a) no store of one hash's KeyOrder slice into another hash's KeyOrder field;
+// (b) no bucket slice taken from a range over a hash's Map stored as it is into
+// another map of buckets.
+func (c *Ctx) checkHashStorageNotShared(rule string) {
+	ko := c.mustField(rule, "SexpHash", "KeyOrder")
+	mp := c.mustField(rule, "SexpHash", "Map")
+	if ko == nil || mp == nil {
+		return
+	}
+	nA, nB := 0, 0
+	for _, f := range c.zygoFuncs() {
+		eachInstr(f, func(b *ssa.BasicBlock, i int, in ssa.Instruction) {
+			switch x := in.(type) {
+			case *ssa.Store:
+				fa, ok := x.Addr.(*ssa.FieldAddr)
+				if !ok || faField(fa) != ko {
+					return
+				}
+				nA++
+				for _, leaf := range phiLeaves(x.Val) {
+					if base, ok := loadOfField(leaf, ko); ok && base != fa.X {
+						c.bad(rule, fnName(f), "order list of another hash stored as this hash's", x.Pos(),
+							"the KeyOrder slice of one hash is stored into another hash without a copy: both hashes append to it, and as soon as the slice has spare capacity the entry one of them appends is overwritten by the other's (after (derefSet pa b) a key set on a disappears from (json a) and another appears twice)")
+						return
+					}
+				}
+			case *ssa.MapUpdate:
+				// value is the bucket obtained by ranging over some hash's Map
+				ex, ok := x.Value.(*ssa.Extract)
+				if !ok || ex.Index != 2 {
+					return
+				}
+				nx, ok := ex.Tuple.(*ssa.Next)
+				if !ok {
+					return
+				}
+				rg, ok := nx.Iter.(*ssa.Range)
+				if !ok {
+					return
+				}
+				if _, fromMap := loadOfField(rg.X, mp); !fromMap {
+					return
+				}
+				nB++
+				c.bad(rule, fnName(f), "bucket of another hash stored as it is", x.Pos(),
+					"a bucket slice taken from one hash's Map is put into another map of buckets without a copy: HashSet replaces pairs in place (arr[i] = ...), so a write to one hash changes the value the other holds under that key")
+			}
+		})
+	}
+	if nA < 3 {
+		c.undecided(rule, "package", "order-list stores", token.NoPos, fmt.Sprintf("only %d stores to KeyOrder found", nA))
+	} else if c.countStatus(rule, StViolation) == 0 {
+		c.ok(rule, "package", "order lists and buckets are not shared", token.NoPos, fmt.Sprintf("%d stores to an order list and every copy of a bucket map examined: none hands one hash's slice to another", nA))
+	}
+	_ = nB
 }
